@@ -33,8 +33,11 @@ def evaluate(case, invs, use_ref=True, ref_opts=None):
 
 
 class ProfileCheck(object):
-    def __init__(self, profile, invs, nontrivial, classes=None, quick=(8, 120), thorough=(16, 4000),
-                 use_ref=True, quick_budget=150, thorough_budget=1500):
+    def __init__(self, profile, invs, nontrivial, classes=None, quick=(8, 400), thorough=(16, 4000),
+                 use_ref=True, quick_budget=150, thorough_budget=1500, directed=None, directed_share=4):
+        # directed: optional second strategy (a scenario family); every directed_share-th shard uses it
+        self.directed = directed
+        self.directed_share = directed_share
         self.profile = profile
         self.invs = invs
         self.nontrivial = nontrivial
@@ -47,7 +50,8 @@ class ProfileCheck(object):
 
     def plan(self, tier):
         n, count = self.quick if tier == "quick" else self.thorough
-        return [{"part": "rand", "i": i, "n": n, "count": count} for i in range(n)]
+        return [{"part": "rand", "i": i, "n": n, "count": count,
+                 "directed": bool(self.directed) and (i % self.directed_share == self.directed_share - 1)} for i in range(n)]
 
     def work(self, shard, seed, tier):
         acc = Acc()
@@ -60,7 +64,15 @@ class ProfileCheck(object):
             cl = list(self.classes(prog, r)) if r["feats"] else ["did-not-build"]
             return Outcome(fails, nontrivial=nt, classes=cl, key=prog_key(prog),
                            sample={"script": r["text"], "ticks_run": r["real"].get("nticks")})
-        campaign(acc, gen.program(self.profile), execute, shard["count"], seed * 1000 + shard["i"],
+        strat = self.directed() if shard.get("directed") else gen.program(self.profile)
+        if shard.get("directed"):
+            inner = execute
+
+            def execute(prog, inner=inner):
+                out = inner(prog)
+                out.classes.append("directed-scenario")
+                return out
+        campaign(acc, strat, execute, shard["count"], seed * 1000 + shard["i"],
                  to_case=lambda p: {"prog": p}, budget=budget, shrink_examples=250)
         return acc
 
